@@ -48,7 +48,7 @@ MUTANTS = [
     ("P08b", "C08", CLI, "                    extract_color_from_decl(bg_decl) if bg_decl else default_bg", "                    extract_color_from_decl(bg_decl) if bg_decl else \"white\"", "--default-bg ignored"),
     ("P09a", "C09", CLI, "            rules = tinycss2.parse_stylesheet(\n                css_content, skip_whitespace=False, skip_comments=False\n            )", "            rules = tinycss2.parse_stylesheet(\n                css_content, skip_whitespace=False, skip_comments=True\n            )", "top-level comments dropped"),
     ("P09b", "C09", CLI, '            output_filename = file_path.stem + "_cm" + file_path.suffix\n            output_path = file_path.parent / output_filename', '            output_filename = file_path.stem + "_cm" + file_path.suffix\n            output_path = Path(output_filename)', "output written to cwd instead of beside the input"),
-    ("P10a", "C10", CNV, "    m_prime = L - 0.1055613458 * a - 0.0638541728 * b", "    m_prime = L - 0.1055613458 * a - 0.0638541782 * b", "inverse matrix coefficient digits swapped"),
+    ("P10a", "C10", CNV, "    m_prime = L - 0.1055613458 * a - 0.0638541728 * b", "    m_prime = L - 0.1055613458 * a - 0.0639541728 * b", "inverse matrix coefficient wrong in the 4th decimal (a swap in the last two digits is unobservable on 8-bit output)"),
     ("P10b", "C10", CNV, "    r_8bit = max(0, min(255, round(r_srgb * 255)))", "    r_8bit = max(0, min(255, int(r_srgb * 255)))", "round -> int on the red channel"),
     ("P11a", "C11", MET, "    SL = 1 + ((0.015 * pow(L_mean - 50, 2))", "    SL = 1 + ((0.0015 * pow(L_mean - 50, 2))", "SL weight 0.0015"),
     ("P11b", "C11", MET, "    elif abs(h1_prime - h2_prime) > 180 and (h1_prime + h2_prime) < 360:", "    elif abs(h1_prime - h2_prime) > 180 and (h1_prime + h2_prime) <= 300:", "hue-mean branch condition"),
@@ -59,13 +59,17 @@ MUTANTS = [
     ("P14a", "C14", PAR, "            raise ValueError(\n                f\"Tuple/list color must have length 3 (RGB/HSL) or 4 (RGBA/HSLA). Got length {ln}\"\n            )", "            raise IndexError(\n                f\"Tuple/list color must have length 3 (RGB/HSL) or 4 (RGBA/HSLA). Got length {ln}\"\n            )", "wrong exception type for bad lengths"),
     ("P14b", "C14", COL, '            self._error = str(e)\n            self._parsed = True', '            self._error = ""\n            self._parsed = True', "empty error message"),
     ("P15a", "C15", OPT, "def _strategy_recursive(\n    text_rgb: Tuple[int, int, int],", "import functools\n\n\n@functools.lru_cache(maxsize=None)\ndef _cached_steps(text_rgb):\n    return {}\n\n\ndef _strategy_recursive(\n    text_rgb: Tuple[int, int, int],", "(helper only; real edit below)"),
-    ("P15b", "C15", COL, "        self.bg = Color(bg_color)\n        # Pass background context for RGBA compositing", "        self.bg = _BG_CACHE.setdefault(str(bg_color).strip().lower()[:4], Color(bg_color))\n        # Pass background context for RGBA compositing", "background objects cached on a 4-character key"),
+    ("P15b", "C15", OPT, "def _strategy_recursive(\n    text_rgb: Tuple[int, int, int],\n    bg_rgb: Tuple[int, int, int],\n    large: bool,\n    target_contrast: float,\n    min_contrast: float,\n) -> Tuple[Tuple[int, int, int], bool]:", "def _strategy_recursive(\n    text_rgb: Tuple[int, int, int],\n    bg_rgb: Tuple[int, int, int],\n    large: bool,\n    target_contrast: float,\n    min_contrast: float,\n) -> Tuple[Tuple[int, int, int], bool]:\n    key = (text_rgb, bg_rgb, large)\n    if key not in _RECURSIVE_CACHE:\n        _RECURSIVE_CACHE[key] = _strategy_recursive_uncached(\n            text_rgb, bg_rgb, large, target_contrast, min_contrast\n        )\n    return _RECURSIVE_CACHE[key]\n\n\n_RECURSIVE_CACHE = {}\n\n\ndef _strategy_recursive_uncached(\n    text_rgb: Tuple[int, int, int],\n    bg_rgb: Tuple[int, int, int],\n    large: bool,\n    target_contrast: float,\n    min_contrast: float,\n) -> Tuple[Tuple[int, int, int], bool]:", "default strategy memoised on (text, bg, large), ignoring the very_readable minimum"),
     ("P16a", "C16", OPT, "    if rec_success:\n        return rec_rgb, True\n", "    if rec_success and not large:\n        return rec_rgb, True\n", "relaxed mode ignores the recursive result for large text"),
-    ("P16b", "C16", OPT, "            target_contrast = (\n                7.0  # Aim a bit higher (AAA) if possible, but AA is the floor\n            )", "            target_contrast = (\n                5.0  # Aim a bit higher (AAA) if possible, but AA is the floor\n            )", "ordinary requests aim at 5.0 instead of 7.0"),
+    ("P16b", "C16", OPT, "            target_contrast = (\n                7.0  # Aim a bit higher (AAA) if possible, but AA is the floor\n            )", "            target_contrast = (\n                5.0  # Aim a bit higher (AAA) if possible, but AA is the floor\n            )", "ordinary requests aim at 5.0 instead of 7.0 (kept for the record: it does NOT violate C16 - a success of the very_readable request still implies one of the ordinary request - so a miss is the correct answer)"),
     ("P17a", "C17", OPT, "    accessible_text_str = rgbint_to_string(tuned_rgb)\n", "    accessible_text_str = rgbint_to_string(tuned_rgb)\n    if not success:\n        print(f\"could not reach {min_contrast}\")\n", "stray print on failure"),
     ("P17b", "C17", COL, "            if save_report:\n                # For single pair, generate a quick report", "            if save_report or (show and not success):\n                # For single pair, generate a quick report", "report written when only show was asked (failed pairs)"),
     ("P18a", "C18", CLI, '            if not p.name.endswith("_cm.css"):\n                yield p', '            if not p.name.endswith("_cm.css") or p.name.startswith("x_"):\n                yield p', "some *_cm.css files taken as inputs"),
     ("P18b", "C18", CLI, "            with open(file_path, \"r\", encoding=\"utf-8\") as f:\n                css_content = f.read()", "            with open(file_path, \"r\", encoding=\"utf-8\", errors=\"replace\") as f:\n                css_content = f.read()", "undecodable files processed instead of reported"),
+    ("P05c", "C05", CON, "    return 0.2126 * r_linear + 0.7152 * g_linear + 0.0722 * b_linear", "    return 0.2127 * r_linear + 0.7151 * g_linear + 0.0722 * b_linear", "red/green weights off by 1e-4 each (sum still 1)"),
+    ("P11c", "C11", MET, "        - 0.20 * math.cos(math.radians(4 * H_mean_prime - 63))", "        - 0.20 * math.cos(math.radians(4 * H_mean_prime - 36))", "T term phase 63 -> 36"),
+    ("P13c", "C13", CNV, "    final_g = int(a * g + (1 - a) * bg_g)", "    final_g = int(a * g + (1 - a) * bg_r)", "hsla green channel composited with the background's red"),
+    ("P14c", "C14", PAR, "                        raise ValueError(\n                            f\"Unsupported RGB component type: {type(c).__name__}\"\n                        )", "                        raise TypeError(\n                            f\"Unsupported RGB component type: {type(c).__name__}\"\n                        )", "TypeError for unsupported component types in 3-sequences"),
     ("P19a", "C19", REP, '            file_path = html.escape(str(pair["file"]))', '            file_path = str(pair["file"])', "file name not escaped"),
     ("P19b", "C19", VIS, "    bg = html.escape(str(bg))", "    bg = html.escape(str(bg), quote=False)", "quotes not escaped in bg"),
 ]
@@ -84,8 +88,6 @@ def apply(wt, m):
         old, new = '"rebeccapurple": "#663399"', '"rebeccapurple": "#663398"'
         if old not in s:
             old, new = "'rebeccapurple': '#663399'", "'rebeccapurple': '#663398'"
-    if mid == "P15b":
-        s = s.replace("class Color:", "_BG_CACHE = {}\n\n\nclass Color:", 1)
     if mid == "P15a":
         return False
     if old is None or s.count(old) != 1:
